@@ -1323,6 +1323,91 @@ def stream_hardening(ctx):
     for (case, want), ans in zip(cases, ctx.driver.run(reqs)):
         if ans['model'] != want or ans['spec'] != want:
             s.disagree('tensor == Model / Spec vs exact statement (dtypes, bands)', case, want, ans)
+    # ---- tensor == / != with DIFFERENT key sets, negative / complex one-sided tensors: operands untouched
+    import copy as _copy
+
+    def snap_t(obj):
+        return {k: (numpy.array(v, copy=True), getattr(v, 'dtype', type(v))) for k, v in obj.n_body_tensors.items()}
+
+    def same_t(obj, snp):
+        cur = obj.n_body_tensors
+        if list(cur.keys()) != list(snp.keys()):
+            return False
+        for k, (arr, dt) in snp.items():
+            v = cur[k]
+            if getattr(v, 'dtype', type(v)) != dt or not numpy.array_equal(numpy.asarray(v), arr):
+                return False
+        return True
+    for _ in range(budget(ctx.tier, 80, 1000)):
+        nq = rng.choice([1, 2, 3])
+        cplx = rng.random() < 0.6
+
+        def tens(key):
+            v = [rng.choice([0, -1, 2, -3, 0.5, -0.25]) + (rng.choice([0, 1j, -2j, 0.5j]) if cplx else 0)
+                 for _x in range(nq ** len(key))]
+            return numpy.array(v, dtype=complex if cplx else float).reshape((nq,) * len(key))
+        kind = rng.choice(['poly', 'poly', 'io-vs-poly', 'quad', 'rdm-vs-poly'])
+        base = tens((1, 0))
+        extra_key = rng.choice([(1, 1, 0, 0), (1, 1), (0, 0), (0, 1)])
+        try:
+            if kind == 'poly':
+                a = of.PolynomialTensor({(1, 0): base.copy()})
+                b = of.PolynomialTensor({(1, 0): base.copy(), extra_key: tens(extra_key)})
+            elif kind == 'io-vs-poly':
+                a = of.PolynomialTensor({(): 0.5, (1, 0): base.copy()})
+                b = of.InteractionOperator(0.5, base.copy(), tens((1, 1, 0, 0)))
+            elif kind == 'quad':
+                herm = base + base.conj().T
+                anti = tens((1, 1)); anti = anti - anti.T
+                a = of.QuadraticHamiltonian(herm.copy())
+                b = of.QuadraticHamiltonian(herm.copy(), anti)
+            else:
+                a = of.PolynomialTensor({(1, 0): base.copy()})
+                b = of.InteractionRDM(base.copy(), tens((1, 1, 0, 0)))
+            if rng.random() < 0.5:
+                a, b = b, a
+            sa, sb = snap_t(a), snap_t(b)
+            a0, b0 = _copy.deepcopy(a), _copy.deepcopy(b)
+            r1 = [a == b, b == a, a != b, b != a]
+            r2 = [a == b, b == a, a != b, b != a]
+            self_eq = [a == a0, b == b0, a0 == a, b0 == b]
+            absd = []
+            for o in (a, b):
+                oa = _copy.deepcopy(o)
+                changed = False
+                for k, v in oa.n_body_tensors.items():
+                    av = numpy.absolute(v)
+                    if not numpy.array_equal(av, numpy.asarray(v)):
+                        changed = True
+                    if isinstance(v, numpy.ndarray):
+                        oa.n_body_tensors[k] = av.astype(v.dtype)
+                    else:
+                        oa.n_body_tensors[k] = av
+                absd.append((changed, o == oa))
+        except Exception as e:  # noqa
+            s.violate('tensor comparison (different key sets) raised %s' % type(e).__name__, {'kind': kind}, {'error': repr(e)})
+            continue
+        case = {'kind': kind, 'n': nq, 'a': tensor_json(sa and {k: v[0] for k, v in sa.items()}),
+                'b': tensor_json({k: v[0] for k, v in sb.items()})}
+        s.case(case)
+        s.count('tensor-state:' + kind)
+        if not (same_t(a, sa) and same_t(b, sb)):
+            s.violate('tensor == / != modified an operand (arrays not bit-identical afterwards)', case, {})
+        if [bool(x) for x in r1] != [bool(x) for x in r2]:
+            s.violate('repeating a tensor comparison gives another answer', case,
+                      {'first': [bool(x) for x in r1], 'second': [bool(x) for x in r2]})
+        if not all(bool(x) for x in self_eq):
+            s.violate('after comparisons an operand no longer equals a deep copy of its original self', case, {})
+        for changed, eqabs in absd:
+            if changed and bool(eqabs):
+                s.violate('an operand equals its entry-wise abs() version', case, {})
+        # expected answer, independently: entry-wise with missing keys as zero
+        ta_ = {k: v[0] for k, v in sa.items()}
+        tb_ = {k: v[0] for k, v in sb.items()}
+        want, ok = tensor_exact(a.n_qubits, ta_, b.n_qubits, tb_, tolq)
+        if ok and (bool(r1[0]) != want or bool(r1[1]) != want or bool(r1[2]) == want or bool(r1[3]) == want):
+            s.violate('tensor == / != (different key sets) differs from "every entry within EQ_TOLERANCE, missing = 0"', case,
+                      {'answers': [bool(x) for x in r1], 'statement': want})
     # ---- hermitian_conjugated / is_hermitian: state
     for cls in ('qubit', 'fermion', 'boson', 'quad'):
         C = cls_of(of, cls)
@@ -1476,9 +1561,12 @@ def stream_hardening(ctx):
                     else:
                         g['boson_preserving'] = bool(op.is_boson_preserving())
                     return g
+                snap0 = terms_snapshot(op)
                 g1 = preds()
-                _ = (op == op, op != C(t, 2.0), op.isclose(C()))
+                _ = (op == op, op != C(t, 2.0), op.isclose(C()), is_hermitian(op))
                 g2 = preds()
+                if terms_snapshot(op) != snap0:
+                    s.violate('a predicate / comparison / is_hermitian modified its argument', case, {})
             except Exception as e:  # noqa
                 s.violate('predicate raised %s' % type(e).__name__, case, {'error': repr(e)})
                 continue
